@@ -67,7 +67,7 @@ func famResults(depth int) SeqModel {
 	return SeqModel{Name: "results", MaxTasks: 2, MaxEpics: 1, Depth: depth,
 		Agents: []string{"a1"}, CmdNames: []string{"new_task", "new_epic", "set", "prune", "compact"},
 		StateArgs: []string{"done", "todo"}, ClaimArgs: []string{},
-		Extras: []string{"results", "badid", "set_epic"}, ViewMode: "graph"}
+		Extras: []string{"results", "paths", "badid", "set_epic"}, ViewMode: "graph"}
 }
 
 // crafted stores (3 tasks, 2 epics, every state/claim/membership/dependency
